@@ -163,6 +163,11 @@ void Ctx::c15() {
         int op = -1;
         if (r.pkt.type == PUBLISH) op = op_of_topic(r.pkt.topic);
         else if (r.pkt.type == SUBSCRIBE && !r.pkt.subs.empty()) op = op_of_filter(r.pkt.subs[0].filter, sub_op_by_step);
+        else if (r.pkt.type == UNSUBSCRIBE && !r.pkt.unsubs.empty()) op = op_of_unsub(r.pkt.unsubs[0]);
+        else if (r.pkt.type == DISCONNECT && r.pkt.rc != 0x81 && r.pkt.rc != 0x82 && r.pkt.rc != 0x80) {
+            // the DISCONNECT of the latest async_disconnect initiated before it (internally generated ones carry 0x80/0x81/0x82 and a short reason string)
+            for (auto& o : s.ops) if (o.kind == OpKind::disconnect && o.init_seq < r.seq && o.rc == r.pkt.rc) op = o.id;
+        }
         else continue;
         if (op < 0 || !s.ops[op].has_connack || !(caps_of(held(s.ops[op])) == cc)) continue;
         uint32_t maxp = prop_num(cc, P_MAX_PACKET, 268435460u);
